@@ -362,6 +362,10 @@ type failRec struct {
 	Replay   json.RawMessage `json:"replay"`
 	Extra    map[string]interface{} `json:"extra"`
 	race     bool
+	// sequence is set when the failure only reproduces as the tail of a worker's
+	// whole run history; it holds the worker arguments.
+	sequence       []string
+	unreproducible bool
 }
 
 type summaryRec struct {
@@ -715,6 +719,10 @@ func check(spec *propSpec, b *build) int {
 		if !*flagNoShrink {
 			min = shrink(spec, b, fr)
 		}
+		if min.unreproducible {
+			fmt.Fprintf(os.Stderr, "simcheck: a failure was observed once but cannot be reproduced (exit 2, no verdict): class=%s sig=%s\n%s\n", fr.Class, fr.Sig, firstLines(min.Detail, 12))
+			return 2
+		}
 		path := writeReplay(spec, b, min, fr)
 		replayPaths = append(replayPaths, path)
 	}
@@ -742,11 +750,23 @@ func replayOne(b *build, path string) (*failRec, string) {
 		return nil, err.Error()
 	}
 	var rf struct {
-		Race  bool `json:"race_build"`
-		Procs int  `json:"gomaxprocs"`
+		Race  bool     `json:"race_build"`
+		Procs int      `json:"gomaxprocs"`
+		Kind  string   `json:"kind"`
+		Args  []string `json:"worker_args"`
+		Class string   `json:"class"`
+		Sig   string   `json:"sig"`
 	}
 	if err := json.Unmarshal(raw, &rf); err != nil {
 		return nil, "bad replay file: " + err.Error()
+	}
+	if rf.Kind == "sequence" {
+		for _, g := range runSequence(b, rf.Race, rf.Args) {
+			if g.Class == rf.Class && g.Sig == rf.Sig {
+				return g, ""
+			}
+		}
+		return nil, ""
 	}
 	bin := b.plain
 	if rf.Race {
@@ -863,7 +883,13 @@ func shrink(spec *propSpec, b *build, fr *failRec) *failRec {
 		if r0 != nil {
 			got = r0.Class + "|" + r0.Sig
 		}
-		fr.Detail += fmt.Sprintf("\n[not minimised: replay in a fresh process gave %s %s]", got, herr)
+		// The run does not fail alone: what it did depended on earlier runs of the
+		// same worker process. Re-execute that worker's whole history.
+		if seq := sequenceReplay(spec, b, fr); seq != nil {
+			return seq
+		}
+		fr.Detail += fmt.Sprintf("\n[replay of the single run in a fresh process gave %s %s, and re-running the worker's history did not reproduce it either]", got, herr)
+		fr.unreproducible = true
 		return fr
 	}
 	round := 0
@@ -931,6 +957,55 @@ func shrink(spec *propSpec, b *build, fr *failRec) *failRec {
 	return cur
 }
 
+// sequenceReplay re-runs the worker process that produced fr from its first run
+// up to the failing one and returns the failure if it shows up again.
+func sequenceReplay(spec *propSpec, b *build, fr *failRec) *failRec {
+	h, _ := fr.Extra["history"].(map[string]interface{})
+	if h == nil {
+		return nil
+	}
+	args := []string{"-prop", fmt.Sprint(h["prop"]), "-tier", fmt.Sprint(h["tier"]), "-seed", fmt.Sprint(h["seed"]), "-shard", fmt.Sprint(h["shard"]),
+		"-from", fmt.Sprint(int64(asFloat(h["from"]))), "-runs", fmt.Sprint(int64(asFloat(h["upto"])))}
+	if m := fmt.Sprint(h["mode"]); m != "" {
+		args = append(args, "-mode", m)
+	}
+	got := runSequence(b, fr.race, args)
+	for _, g := range got {
+		if g.Class == fr.Class && g.Sig == fr.Sig {
+			g.sequence = args
+			g.race = fr.race
+			g.Detail += "\n[this run fails only after the earlier runs of the same worker process; the replay file re-executes that whole history]"
+			return g
+		}
+	}
+	return nil
+}
+
+func asFloat(v interface{}) float64 {
+	f, _ := v.(float64)
+	return f
+}
+
+func runSequence(b *build, race bool, args []string) []*failRec {
+	bin := b.plain
+	if race {
+		bin = b.race
+	}
+	full := append(append([]string{}, args...), "-corpus", b.corpus, "-sites", b.sites)
+	if rp := filepath.Join(scratch, "ref.json"); fileExists(rp) {
+		full = append(full, "-ref", rp)
+	}
+	res := runWorker(workerJob{bin: bin, race: race, procs: 1, args: full, timeout: 20 * time.Minute})
+	var out []*failRec
+	for k := range res.lines {
+		if res.lines[k].T == "fail" {
+			fr := res.lines[k].failRec
+			out = append(out, &fr)
+		}
+	}
+	return out
+}
+
 func replayJSON(spec *propSpec, b *build, fr *failRec, note string) []byte {
 	procs := spec.procs
 	if procs == 0 {
@@ -952,6 +1027,10 @@ func replayJSON(spec *propSpec, b *build, fr *failRec, note string) []byte {
 	}
 	if fr.Extra != nil && fr.Extra["trace"] != nil {
 		m["trace"] = fr.Extra["trace"]
+	}
+	if fr.sequence != nil {
+		m["kind"] = "sequence"
+		m["worker_args"] = fr.sequence
 	}
 	out, _ := json.MarshalIndent(m, "", " ")
 	return out
